@@ -238,11 +238,34 @@ def symline(rng):
         return 'push %s+8' % expr
     return 'mov DWORD PTR %s[ebx], eax' % expr
 
+def twin_items(rng):
+    """The same small shape at two widths, one after the other (anything keyed on values alone collides)."""
+    a, b = rng.choice([0xF0, 0x20, 0x80, 0x81, 0xFF, 1]), rng.choice([0xF0, 0x20, 0x80, 0x81, 0x7F, 1])
+    op = rng.choice(['+', '^', '&', '|', '*'])
+    out = []
+    for w in rng.sample([8, 16, 32], 2):
+        zf = ['D', 'zf', 1, False, True]
+        shape = rng.choice(['ints', 'cond', 'id'])
+        if shape == 'ints':
+            e = ['O', op, [r_int(a, w), r_int(b, w)]]
+        elif shape == 'cond':
+            e = ['O', '^', [['?', zf, r_int(1, w), r_int(0, w)], r_int(a, w), r_int(b, w)]]
+        else:
+            e = ['O', op, [['D', 'q', w, False, False], r_int(a, w), r_int(b, w)]]
+        it = {'kind': 'simp', 'e': e, 'variants': variants(rng, e)}
+        out.append(it)
+    return out
+
 def workload(seed, n):
     rng = random.Random(seed)
     items = []
     for i in range(n):
         k = rng.random()
+        if k < 0.02 and len(items) < n - 1:
+            items += twin_items(rng)
+            continue
+        if len(items) >= n:
+            break
         if k < 0.04:
             items.append({'kind': 'symline', 'line': symline(rng)})
         elif k < 0.55:
@@ -258,4 +281,4 @@ def workload(seed, n):
             items.append({'kind': 'emul', 'lines': emul_program(rng)})
         else:
             items.append({'kind': 'sets', 'e': tree(rng, rng.choice([2, 3, 4]))})
-    return items
+    return items[:n]
